@@ -780,3 +780,15 @@ func (e *Engine) backendError(v ssa.Value, depth int) bool {
 	}
 	return false
 }
+
+// oldParams: the parameter names (receiver first) the function had on the unchanged tree.
+func (e *Engine) oldParams(fnKey string) []string {
+	if e.names == nil {
+		return nil
+	}
+	v, ok := e.names[fnKey]["$params"]
+	if !ok {
+		return nil
+	}
+	return strings.Split(v, ",")
+}
